@@ -47,7 +47,7 @@ class Check(BaseCheck):
                 k += 1
                 v, t = c["v"], c["t"]
                 with core.quiet():
-                    b = Solver.fem_tria_mass(TriaMesh(v, t), lump)
+                    b = Solver.fem_tria_mass(TriaMesh(*gen.arrays(c, keep_int=False)), lump)
                 r = wire.Reply(drv.ask("mass_tria %d %s %s" % (int(lump), wire.verts(v), wire.elems(t))))
                 stats.case(core.mesh_key(v, t, lump, "standalone"), cls=["standalone:" + c["name"]],
                            sample=dict(entry="fem_tria_mass", name=c["name"], nv=len(v), nt=len(t), lump=lump) if k == 1 else None)
@@ -58,13 +58,13 @@ class Check(BaseCheck):
                 e = core.sparse_relerr(b, mb)
                 if not e <= 1e-9:
                     fails.append(core.Failure("correspondence", "fem_tria_mass vs model", "%s lump=%s rel.err %.3g" % (c["name"], lump, e),
-                                              corr_fem.case_dict("tri", v, t, lump=lump, name=c["name"])))
+                                              corr_fem.case_dict("tri", v, t, lump=lump, name=c["name"], pres=c.get("pres"))))
         return fails
 
     def search_cases(self):
         for k, c in enumerate(gen.tria_stream(self.seed + 1, 40 if self.quick else 300, "small")):
             for lump in (False, True):
-                yield corr_fem.case_dict("tri", c["v"] * corr_fem.SCALES[k % len(corr_fem.SCALES)], c["t"], lump=lump, dt="f64", name=c["name"])
+                yield corr_fem.case_dict("tri", c["v"] * corr_fem.SCALES[k % len(corr_fem.SCALES)], c["t"], lump=lump, dt="f64", name=c["name"], pres=c.get("pres"))
         for c in gen.tet_stream(self.seed + 1, 12 if self.quick else 100, "small"):
             for lump in (False, True):
                 yield corr_fem.case_dict("tet", c["v"], c["t"], lump=lump, name=c["name"])
@@ -74,9 +74,11 @@ class Check(BaseCheck):
         v = np.asarray(case["v"], dtype=np.float64); t = np.asarray(case["t"], dtype=np.int64)
         if len(np.unique(t)) != len(v):
             return None
+        if kind == "tri" and np.min(np.linalg.norm(corr_fem.tri_geom(v, t)[3], axis=1)) < 4 * np.finfo(float).eps:
+            return None            # below the kernel's own absolute degeneracy guard (2^-52): outside the property's quantifier
         try:
-            _, sf = corr_fem.impl_fem(kind, v, t, False)
-            _, sl = corr_fem.impl_fem(kind, v, t, True)
+            _, sf = corr_fem.impl_fem(kind, v, t, False, pres=case.get("pres"))
+            _, sl = corr_fem.impl_fem(kind, v, t, True, pres=case.get("pres"))
         except Exception as e:  # noqa: BLE001
             return core.Violation("mass", "Solver raised %s: %s" % (type(e).__name__, e), case)
         b = sf.mass.astype(np.float64); bl = sl.mass.astype(np.float64)
@@ -103,7 +105,7 @@ class Check(BaseCheck):
         if kind == "tri":
             for lump, ref in ((False, b), (True, bl)):
                 with core.quiet():
-                    bs = Solver.fem_tria_mass(TriaMesh(v, t), lump)
+                    bs = Solver.fem_tria_mass(TriaMesh(*gen.present(v, t, case.get("pres") or "plain")), lump)
                 if bs.shape != ref.shape or abs(bs - ref).max() > 1e-12 * scale:
                     return core.Violation("standalone", "fem_tria_mass(lump=%s) differs from Solver.mass" % lump, case)
         return None
